@@ -253,7 +253,7 @@ def native_sections(repo, tier):
         o = ground_obligation(oid, ok, "" if ok else f"{json.dumps(res.get('inputs'))[:300]} -> {str(res.get('observed'))[:200]} (expected {str(res.get('expected'))[:200]})",
                               "replay/C03.py", kind="bounded", backend="native-replay")
         o["bounded"] = True
-        o["bound"] = "documents of <= 5 paragraphs over {h1 (fixed text), h2 (fixed text), heading without text, body paragraph (distinct text), body paragraph (repeated text), empty paragraph}"
+        o["bound"] = "documents of <= 5 paragraphs over {h1 (fixed text), h2 (fixed text), heading without text, body paragraph (distinct text), body paragraph (repeated text), empty paragraph}; docx / odt also <= 5 paragraphs over {h1, h2, h3 (each with a text of its own), body paragraph}: every heading in the heading path of a unit"
         if excl.get(cls):
             o["exclusions"] = excl[cls]
         obls.append(o)
@@ -280,14 +280,14 @@ def native_documents(repo, tier):
     if "error" in res or "results" not in res:
         return {"obligations": [], "undecided": [{"obligation": documents_oid(f), "why": "native scope could not run: " + str(res.get("error", res.get("note")))[:300]}
                                                  for f in DOC_FORMATS]}
-    bounds = {"pdf": "1..3 pages, blank / one text token each, any subset of pages unreadable",
+    bounds = {"pdf": "1..3 pages, blank / one text token each, any subset of pages unreadable / without content; pages with identical content bytes that differ only in their /Resources (form XObject, font encoding)",
               "pptx": "0..3 slides x {text, empty, hidden}; 1..2 slides x 1..3 shapes over {title, ctrTitle, body, subTitle, text box}; parts stored in reverse order",
-              "odp": "0..3 slides x {text, empty}; 1..2 slides x 1..3 paragraphs over {Title, TitleText, BodyText, other style, no style}",
+              "odp": "0..3 slides x {text, empty}; 1..2 slides x 1..3 paragraphs over {Title, TitleText, BodyText, other style, no style}; slides with a speaker-notes page (1..2 note paragraphs, first / last child)",
               "epub": "0..3 spine items x {text, empty, missing from the manifest}, linear=no items; 1..2 chapters x 2..3 blocks over {h1, p, li}",
               "txt": "0..3 paragraphs", "html": "0..3 paragraphs (p / div)", "rtf": "1..3 pages over {text, empty, blank, Unicode runs, hex escapes}",
               "xlsx": "1..3 sheets x {data, empty}, names not sorted", "ods": "1..3 sheets x {data, empty}, names not sorted",
               "eml": "1..3 inline text parts over {plain, html}, multipart/mixed and /alternative",
-              "mbox": "1..3 messages x {body, empty, two lines}, padded / unpadded, LF / CRLF, header-only; 1..3 inline text parts per message",
+              "mbox": "1..3 messages x {body, empty, two lines}, padded / unpadded, LF / CRLF, header-only; messages without / with repeated / empty Message-ID; 1..3 inline text parts per message",
               "ppt": "record streams: 0..2 slides x {no text, 1, 2 text atoms} x {loose text atom}; 1..3 slides x 1..3 text atoms (token coverage); fixture slide_with_notes.ppt"}
     for fmt in DOC_FORMATS:
         r = res["results"].get(fmt)
